@@ -63,11 +63,16 @@ Definition r_tb (r : resp) : bool := let 'mkResp _ _ _ _ _ _ _ _ t := r in t.
    response.status = ..., response.headers[n] = v, response.headers.append(n, v),
    response.set_cookie(n, ...)   (only calls that succeed; a failing one is
    the same as raising at that point) *)
+(* app.remove_hook(name, <the hook registered as number j>) / app.add_hook(name, <a new hook number j
+   that does nothing>) called from inside a hook or handler; after = the after_request list *)
+Inductive hookedit := HERemove (after : bool) (j : nat) | HEAdd (after : bool) (j : nat).
+
 Inductive mut :=
 | MStatus (code : Z) (line : str)
 | MSetHeader (n v : str)
 | MAddHeader (n v : str)
-| MSetCookie (n rendered : str).
+| MSetCookie (n rendered : str)
+| MHook (e : hookedit).
 
 Inductive hres :=
 | HRet (o : out)
@@ -175,6 +180,7 @@ Definition apply_mut (m : mut) (st : rstate) : rstate :=
   | MSetHeader n v => st_hs st (h_set n v (s_hs st))
   | MAddHeader n v => st_hs st (h_append n v (s_hs st))
   | MSetCookie n v => mkSt (s_code st) (s_line st) (s_hs st) (j_set n v (s_cs st))
+  | MHook _ => st                                               (* the hook lists are not part of the response *)
   end.
 Definition apply_muts (ms : list mut) (st : rstate) : rstate := fold_left (fun s m => apply_mut m s) ms st.
 
@@ -541,6 +547,38 @@ Record program := mkProg {
   p_routing : routing
 }.
 
+(* ---- hook lists edited while a request is being served (add_hook / remove_hook, ombott.py:162-189) ----
+   emit iterates over a copy of the list (ombott.py:193): an edit made during an emit does not
+   change that emit; an edit of the after_request list made before its emit starts does.
+   Which callables run before the after_request emit is decided by their results alone. *)
+Definition fails_h (h : hprog) : bool := match h_res h with HRet _ => false | _ => true end.
+Fixpoint ran_prefix (hs : list hprog) : list hprog :=
+  match hs with
+  | [] => []
+  | h :: t => if fails_h h then [h] else h :: ran_prefix t
+  end.
+Definition all_ret (hs : list hprog) : bool := forallb (fun h => negb (fails_h h)) hs.
+Definition edits_of (hs : list hprog) : list hookedit :=
+  flat_map (fun h => flat_map (fun m => match m with MHook e => [e] | _ => [] end) (h_muts h)) hs.
+Definition routing_progs (rt : routing) : list hprog :=
+  match rt with
+  | R404 (Some h) => [h]
+  | ROk rh h => ran_prefix rh ++ (if all_ret rh then [h] else [])
+  | _ => []
+  end.
+Definition marker_hook : hprog := mkH [] (HRet OFalsy).
+Fixpoint remove_first (j : nat) (l : list (nat * hprog)) : list (nat * hprog) :=
+  match l with
+  | [] => []
+  | (i, h) :: t => if Nat.eqb i j then t else (i, h) :: remove_first j t
+  end.
+Definition apply_edit (l : list (nat * hprog)) (e : hookedit) : list (nat * hprog) :=
+  match e with
+  | HERemove true j => remove_first j l
+  | HEAdd true j => (j, marker_hook) :: l                        (* insert(0, func) *)
+  | _ => l                                                        (* the before_request list: next request *)
+  end.
+
 (* the routing + handler part of the inner try (ombott.py:274-281, 235-256) *)
 Definition route_and_call (rt : routing) (st : rstate) : list event * rstate * (out + exn) :=
   match rt with
@@ -555,6 +593,13 @@ Definition route_and_call (rt : routing) (st : rstate) : list event * rstate * (
   end.
 
 (* st0 = the response object as response.__init__() left it *)
+(* the after_request list, in call order, when its emit starts *)
+Definition after_call_list (p : program) : list (nat * hprog) :=
+  fold_left apply_edit
+            (edits_of (ran_prefix (p_before p)
+                       ++ (if all_ret (p_before p) then routing_progs (p_routing p) else [])))
+            (rev (indexed (p_after p))).
+
 Definition handle_from (st0 : rstate) (p : program) : list event * rstate * out :=
   let '(evB, st1, xB) := run_hooks EvHookB (indexed (p_before p)) st0 in
   let '(evM, st2, resM) :=
@@ -563,7 +608,7 @@ Definition handle_from (st0 : rstate) (p : program) : list event * rstate * out 
     | None => route_and_call (p_routing p) st1
     end in
   (* finally: self.emit('after_request') — the list was built by insert(0, ..) *)
-  let '(evA, st3, xA) := run_hooks EvHookA (rev (indexed (p_after p))) st2 in
+  let '(evA, st3, xA) := run_hooks EvHookA (after_call_list p) st2 in
   let res := match xA with Some x => inr x | None => resM end in
   let o := match res with
            | inl o => o
@@ -814,6 +859,8 @@ Definition dec_mut (l : list Z) : option (mut * list Z) :=
   | 1%Z :: r => match dec_pair dec_str dec_str r with Some ((n, v), r') => Some (MSetHeader n v, r') | None => None end
   | 2%Z :: r => match dec_pair dec_str dec_str r with Some ((n, v), r') => Some (MAddHeader n v, r') | None => None end
   | 3%Z :: r => match dec_pair dec_str dec_str r with Some ((n, v), r') => Some (MSetCookie n v, r') | None => None end
+  | 4%Z :: a :: j :: r => Some (MHook (HERemove (negb (Z.eqb a 0)) (Z.to_nat j)), r)
+  | 5%Z :: a :: j :: r => Some (MHook (HEAdd (negb (Z.eqb a 0)) (Z.to_nat j)), r)
   | _ => None
   end.
 
